@@ -10,7 +10,7 @@ from .trees import E, T
 
 TYPES = ['text', 'TEXT', 'submit', 'Submit', 'radio', 'checkbox', 'hidden', 'number', 'range', 'date', 'week', 'time',
          'month', 'datetime-local', 'search', 'tel', 'url', 'email', 'password', 'button', 'reset', 'foo', '']
-BOUNDS = ['1', '5', '3', '-1', '.5', 'x', '', '2019-W53', '2020-W53', '2020-W10', '2020-02-30', '2020-02-29',
+BOUNDS = ['1', '5', '3', '-1', '.5', 'x', '', '٣', '５', '२.५', '2019-W53', '2020-W53', '2020-W10', '2020-02-30', '2020-02-29',
           '2019-02-29', '10:00', '23:59', '24:00', '04:30', '2020-01', '2020-13', '2020-01-01T10:00', 'abc', '1e3',
           '0999-W01', '10000-W01', '0001-01-01', '12000-12-31']
 TEXTS = ['abc', 'אבג', '123', ' ', '‏', 'ابج x', '', 'x', '\n']
@@ -37,7 +37,7 @@ def gen_form_doc(rng, iframes=True, nested_forms=True, max_nodes=30, lang=True, 
             if rng.random() < .88:
                 e.attrs['type'] = rng.choice(TYPES)
             if rng.random() < .45:
-                e.attrs['name'] = rng.choice(['r', 'q', '', 'R2'])
+                e.attrs['name'] = rng.choice(['r', 'q', '', 'R2', 'R', 'r'])
             if rng.random() < .3:
                 e.attrs['checked'] = ''
             if rng.random() < .15:
@@ -109,6 +109,15 @@ def gen_form_doc(rng, iframes=True, nested_forms=True, max_nodes=30, lang=True, 
     while budget[0] > 0:
         budget[0] -= 1
         body.kids.append(cont(0) if rng.random() < .5 else ctl())
+    # radio clusters: several groups whose names may differ only by case, inside one form or outside any form
+    if rng.random() < .3:
+        holder = E('form') if rng.random() < .6 else E('div')
+        for _ in range(rng.randint(2, 6)):
+            r = E('input', {'type': rng.choice(['radio', 'radio', 'RADIO']), 'name': rng.choice(['r', 'R', 'q', 'r'])})
+            if rng.random() < .3:
+                r.attrs['checked'] = ''
+            holder.kids.append(r)
+        body.kids.insert(rng.randrange(len(body.kids) + 1), holder)
     # twins: structurally identical subtrees (bs4 tags compare equal structurally)
     if rng.random() < .3:
         els = [k for k in body.kids if isinstance(k, E)]
